@@ -46,3 +46,33 @@ func (t Tail) Hierarchy() []Symbol {
 func (t Tail) Eval(s *Scope, depth int) Object {
 	return t.Value.Eval(s, depth)
 }
+
+// Cons returns the list with car as the first element and cdr as the rest
+// of the list. A list is one representation only: when cdr is a list its
+// elements follow car, when it is nil the list ends after car, and only
+// some other object becomes the Tail of a dotted pair. A Tail must never
+// hold a list or nil, (a . (1 2)) is (a 1 2).
+func Cons(car, cdr Object) List {
+	switch tc := cdr.(type) {
+	case nil:
+		return List{car}
+	case List:
+		list := make(List, 0, len(tc)+1)
+		list = append(list, car)
+		return append(list, tc...)
+	}
+	return List{car, Tail{Value: cdr}}
+}
+
+// WithCdr returns list with cdr as its final cdr following the same rule as
+// Cons. The elements of a list cdr are appended, nil leaves the list as it
+// is, and any other object is added as the Tail.
+func (list List) WithCdr(cdr Object) List {
+	switch tc := cdr.(type) {
+	case nil:
+		return list
+	case List:
+		return append(list, tc...)
+	}
+	return append(list, Tail{Value: cdr})
+}
